@@ -101,7 +101,7 @@ Theorem sends_bound s jit script : (r_sends (retry_loop s (delays (s_backoff s) 
 Proof. rewrite <- (delays_length (s_backoff s) jit). apply loop_bound. Qed.
 
 (* ---------- strategy selection ---------- *)
-Theorem per_request_overrides client s : effective client (PSome s) = Some s /\ effective client PNone = None /\ effective client PUnset = client.
+Theorem per_request_overrides client s : effective client (RSome s) = Some s /\ effective client RNone = None /\ effective client RUnset = client.
 Proof. repeat split. Qed.
 Theorem disabled_sends_once client p jit a rest : effective client p = None ->
   send_with client p jit (a :: rest) = {| r_sends := 1; r_sleeps := []; r_final := Some a |}.
